@@ -261,7 +261,7 @@ pub struct CApi<A: Z> {
 impl<A: Z> InfBack for CApi<A> {
     const LABEL: &'static str = A::NAME;
     fn init(wbits: c_int) -> Result<Self, c_int> {
-        let mut strm = Box::new(zs());
+        let mut strm = Box::new(zs_for::<A>());
         crate::guard::install_current(&mut strm);
         let rc = unsafe { A::inflateInit2(&mut *strm, wbits) };
         if rc != Z_OK {
